@@ -50,6 +50,9 @@ fn act_from(v: &Value) -> Option<Act> {
 }
 
 struct Scripted {
+    /// stop at the first reply call that fails and hand its error to the service, as an
+    /// implementation written with `?` does
+    propagate: bool,
     script: Mutex<Vec<Act>>,
     /// per action: Some(true) = reply call returned Ok, Some(false) = returned Err, None = not a reply
     results: Mutex<Vec<Option<Result<(), String>>>>,
@@ -68,24 +71,34 @@ impl Interface for Scripted {
     fn call(&self, call: &mut varlink::Call) -> varlink::Result<()> {
         let script = self.script.lock().unwrap().clone();
         let mut results = vec![];
+        let mut first_err = None;
         for a in &script {
             match a {
                 Act::Cont(b) => {
                     call.set_continues(*b);
                     results.push(None);
                 }
-                Act::Reply(v) => {
-                    let r = call.reply_struct(varlink::Reply::parameters(Some(v.clone())));
-                    results.push(Some(r.map_err(|e| format!("{:?}", e.kind()))));
-                }
-                Act::ReplyErr(n, v) => {
-                    let r = call.reply_struct(varlink::Reply::error(n.clone(), Some(v.clone())));
-                    results.push(Some(r.map_err(|e| format!("{:?}", e.kind()))));
+                Act::Reply(_) | Act::ReplyErr(..) => {
+                    let r = match a {
+                        Act::Reply(v) => call.reply_struct(varlink::Reply::parameters(Some(v.clone()))),
+                        Act::ReplyErr(n, v) => call.reply_struct(varlink::Reply::error(n.clone(), Some(v.clone()))),
+                        _ => unreachable!(),
+                    };
+                    results.push(Some(r.as_ref().map(|_| ()).map_err(|e| format!("{:?}", e.kind()))));
+                    if self.propagate {
+                        if let Err(e) = r {
+                            first_err = Some(e);
+                            break;
+                        }
+                    }
                 }
             }
         }
         *self.results.lock().unwrap() = results;
-        Ok(())
+        match first_err {
+            Some(e) => Err(e),
+            None => Ok(()),
+        }
     }
 }
 
@@ -118,6 +131,7 @@ pub fn run_script(script: &[Act], more: bool, oneway: bool) -> Result<(), Fail> 
 /// `spell_false`: flags that are not set are written as an explicit `false` instead of being absent
 pub fn run_script_spelled(script: &[Act], more: bool, oneway: bool, spell_false: bool) -> Result<(), Fail> {
     let iface = Scripted {
+        propagate: false,
         script: Mutex::new(script.to_vec()),
         results: Mutex::new(vec![]),
     };
@@ -255,6 +269,104 @@ pub fn run_script_spelled(script: &[Act], more: bool, oneway: bool, spell_false:
     Ok(())
 }
 
+/// The implementation hands the error of a refused reply to the service (as code written with `?`
+/// does) and a further request is already buffered behind this one. Whatever the service then does,
+/// the refused reply stays off the wire and the request does not end up with two final replies.
+pub fn run_script_propagating(script: &[Act], more: bool, oneway: bool) -> Result<(), Fail> {
+    let iface = Scripted { propagate: true, script: Mutex::new(script.to_vec()), results: Mutex::new(vec![]) };
+    let service = varlink::VarlinkService::new("v", "p", "1", "u", vec![Box::new(iface)]);
+    let mut req = json!({"method": "org.script.Run", "parameters": {}});
+    if more {
+        req["more"] = json!(true);
+    }
+    if oneway {
+        req["oneway"] = json!(true);
+    }
+    let mut bytes = encode(&req, Style::Compact);
+    bytes.extend(encode(&json!({"method": "org.varlink.service.GetInfo"}), Style::Compact));
+    let run = run_chunks(&service, &[&bytes]);
+    if let Some(p) = &run.panicked {
+        return Err(Fail::new("continues/panic", format!("panicked: {}", p)));
+    }
+    let mut replies = split_replies("continues", &run.out)?;
+    if let Some(last) = replies.last() {
+        if last["parameters"]["interfaces"].is_array() && last["parameters"]["vendor"].is_string() {
+            replies.pop(); // the buffered GetInfo was answered
+        }
+    }
+    if !more {
+        if let Some(r) = replies.iter().find(|r| r.get("continues") == Some(&Value::Bool(true))) {
+            return Err(Fail::new("continues/on-wire-without-more", format!("a reply carrying continues:true was written for a request without `more`: {}", r)));
+        }
+    }
+    if oneway && !replies.is_empty() {
+        return Err(Fail::new("continues/reply-to-oneway", format!("a oneway request was answered: {}", Value::Array(replies))));
+    }
+    if oneway {
+        return Ok(());
+    }
+    // what the script's successful reply calls put on the wire, up to the first refused one
+    let mut cont = false;
+    let mut want: Vec<Value> = vec![];
+    for a in script {
+        match a {
+            Act::Cont(b) => cont = *b,
+            Act::Reply(_) | Act::ReplyErr(..) => {
+                if cont && !more {
+                    break;
+                }
+                let mut r = serde_json::Map::new();
+                match a {
+                    Act::Reply(v) => {
+                        r.insert("parameters".into(), v.clone());
+                    }
+                    Act::ReplyErr(n, v) => {
+                        r.insert("error".into(), json!(n));
+                        r.insert("parameters".into(), v.clone());
+                    }
+                    _ => {}
+                }
+                if cont {
+                    r.insert("continues".into(), json!(true));
+                }
+                want.push(serde_json::from_str(&Value::Object(r).to_string()).unwrap());
+            }
+        }
+    }
+    let norm = |v: &Value| -> Value {
+        let mut m = v.as_object().cloned().unwrap_or_default();
+        if matches!(m.get("continues"), Some(Value::Bool(false)) | Some(Value::Null)) {
+            m.remove("continues");
+        }
+        if m.get("error") == Some(&Value::Null) {
+            m.remove("error");
+        }
+        Value::Object(m)
+    };
+    let got: Vec<Value> = replies.iter().map(norm).collect();
+    if got.len() < want.len() || got[..want.len()] != want[..] {
+        return Err(Fail::new(
+            "continues/wire-differs",
+            format!("wire replies {} do not start with what the script's accepted reply calls produce {}", Value::Array(got), Value::Array(want)),
+        ));
+    }
+    let extra = &got[want.len()..];
+    let had_final = want.iter().any(|r| r.get("continues") != Some(&Value::Bool(true)));
+    let tolerable = extra.is_empty() || (!had_final && extra.len() == 1 && extra[0].get("error").map(|e| e.is_string()).unwrap_or(false));
+    if !tolerable {
+        return Err(Fail::new(
+            "continues/reply-after-refused-reply",
+            format!(
+                "after the refused reply the wire carries {} beyond the accepted replies {} (the request {}): a refused reply leaves nothing on the wire, also not by way of the service",
+                Value::Array(extra.to_vec()),
+                Value::Array(want.clone()),
+                if had_final { "already had its final reply" } else { "may get one error reply at most" }
+            ),
+        ));
+    }
+    Ok(())
+}
+
 fn all_scripts(maxlen: usize) -> Vec<Vec<Act>> {
     let acts = |step: usize| -> Vec<Act> {
         vec![
@@ -299,6 +411,17 @@ fn server_half(ctx: &mut Ctx) {
                     j["unset_flags_spelled_false"] = json!(spell_false);
                     ctx.violation(&f.key, &f.what, "c05-server", j);
                 }
+            }
+        }
+    }
+    for s in &scripts {
+        for (more, oneway) in [(false, false), (true, false), (false, true), (true, true)] {
+            ctx.case(if script_nontrivial(s, more) { Some(hash64(&(format!("{:?}", s), more, oneway, "propagating"))) } else { None });
+            ctx.class("server:enumerated-script(error handed to the service, request buffered behind)");
+            if let Err(f) = pt::guard(|| run_script_propagating(s, more, oneway)) {
+                let mut j = script_json(s, more, oneway);
+                j["propagating"] = json!(true);
+                ctx.violation(&f.key, &f.what, "c05-server", j);
             }
         }
     }
@@ -458,7 +581,11 @@ fn replay(ctx: &mut Ctx, v: &Value) {
     ctx.force_sample(cj.clone());
     let res = if let Some(s) = cj.get("script").and_then(|s| s.as_array()) {
         let script: Vec<Act> = s.iter().filter_map(act_from).collect();
-        run_script_spelled(&script, cj["more"].as_bool().unwrap_or(false), cj["oneway"].as_bool().unwrap_or(false), cj["unset_flags_spelled_false"].as_bool().unwrap_or(false))
+        if cj["propagating"] == json!(true) {
+            run_script_propagating(&script, cj["more"].as_bool().unwrap_or(false), cj["oneway"].as_bool().unwrap_or(false))
+        } else {
+            run_script_spelled(&script, cj["more"].as_bool().unwrap_or(false), cj["oneway"].as_bool().unwrap_or(false), cj["unset_flags_spelled_false"].as_bool().unwrap_or(false))
+        }
     } else {
         let arr = |x: &Value| x.as_array().cloned().unwrap_or_default();
         run_client(&ClientCase {
